@@ -140,11 +140,11 @@ func c16CopyTree(src, dst string) {
 }
 
 func streamC16(h *H) {
-	n := h.N(60, 3000)
+	n := h.N(100, 3000)
 	for i := 0; i < n; i++ {
 		c44RepoCase(h, "dedup", true)
 	}
-	n = h.N(12, 300)
+	n = h.N(20, 300)
 	for i := 0; i < n; i++ {
 		base := MkTemp("c16-")
 		src := filepath.Join(base, "src")
